@@ -277,7 +277,10 @@ func errShape(err error) string {
 func c03Errors() []error {
 	return []error{linux.ENOSPC, linux.EPERM, syscall.EPERM, syscall.ENOTEMPTY, syscall.EACCES, syscall.ENOENT, syscall.EEXIST, os.ErrNotExist, os.ErrExist, os.ErrPermission, os.ErrInvalid,
 		fmt.Errorf("w: %w", linux.EROFS), fmt.Errorf("w: %w", syscall.EPERM), &fs.PathError{Op: "open", Path: "/x", Err: syscall.ENOTEMPTY}, &fs.PathError{Op: "open", Path: "/x", Err: syscall.EPERM},
-		errors.Join(errors.New("a"), linux.EMLINK), errors.New("opaque"), fmt.Errorf("deep: %w", fmt.Errorf("deeper: %w", syscall.EXDEV)), io.ErrUnexpectedEOF, linux.Errno(4095), syscall.Errno(200)}
+		errors.Join(errors.New("a"), linux.EMLINK), errors.New("opaque"), fmt.Errorf("deep: %w", fmt.Errorf("deeper: %w", syscall.EXDEV)), io.ErrUnexpectedEOF, linux.Errno(4095), syscall.Errno(200),
+		// error trees: the errno sits below a node with several children
+		errors.Join(errors.New("ctx"), syscall.EROFS), fmt.Errorf("%w: %w", errors.New("op"), syscall.ENOTEMPTY), fmt.Errorf("%w / %w", linux.ENOTTY, errors.New("tail")),
+		fmt.Errorf("x: %w", errors.Join(errors.New("a"), syscall.EBUSY)), &fs.PathError{Op: "close", Path: "/y", Err: errors.Join(syscall.ENOSPC)}, errors.Join(errors.New("only text"), errors.New("more text"))}
 }
 
 // derive binds a client File by walking names from parent.
@@ -334,7 +337,7 @@ func (w *tw) attach() bool {
 
 func runTransparency(c *ev.Ctx, prop string) {
 	r := c.Rand(prop + "transparency")
-	rounds := c.Sz(40, 6000)
+	rounds := c.Sz(400, 20000)
 	idx := 0
 	for ver := uint32(0); ver <= 7; ver++ {
 		for round := 0; round < rounds; round++ {
@@ -401,6 +404,18 @@ func (w *tw) exercise(round int) {
 		var q p9.QID
 		var iou uint32
 		var err error
+		if e := inject("Open"); e != nil {
+			// a refused Open: its errno reaches the caller, and the handle can
+			// be opened afterwards as if nothing had happened
+			o := w.around("Open", func() { _, _, err = f.Open(flags) })
+			if o.hung {
+				return
+			}
+			w.wantT(o, wire.Tlopen, w.fid[f], uint64(flags))
+			w.wantCall(o, "Open", w.hnd[f], flags)
+			w.wantErr("Open", err, e)
+			w.count("Open", true)
+		}
 		o := w.around("Open", func() { q, iou, err = f.Open(flags) })
 		if o.hung {
 			return
@@ -1091,6 +1106,7 @@ func (w *tw) exercise(round int) {
 	// ---- Close ----
 	{
 		var err error
+		ce := inject("Close")
 		o := w.around("Close", func() { err = deep.Close() })
 		if o.hung {
 			return
@@ -1105,8 +1121,10 @@ func (w *tw) exercise(round int) {
 		if !closed {
 			w.bad("C03", "backend-did-not-see-exactly-the-corresponding-call:Close", map[string]any{"backend_calls": callList(o.calls)})
 		}
-		w.wantR(o, tf, wire.Rclunk)
-		w.wantErr("Close", err, nil)
+		if ce == nil {
+			w.wantR(o, tf, wire.Rclunk)
+		}
+		w.wantErr("Close", err, ce)
 		w.count("Close", true)
 	}
 	if w.c.WantSample() {
